@@ -66,6 +66,25 @@ pub fn check_batch(b: &TimeBatch, info: &mut CaseInfo) -> Result<(), String> {
 	check_one(&c.not_before, &t0, "notBefore")?;
 	check_one(&c.not_after, &t1, "notAfter")?;
 
+	// the same two instants in a certificate issued by a CA whose own validity is another pair of
+	// the batch (earlier, later, overlapping - whatever comes): the subject's fields are the subject's
+	{
+		let n = b.times.len();
+		let mut ispec = CertSpec::minimal();
+		ispec.is_ca = IsCaSpec::CaUnconstrained;
+		ispec.dn = DnSpec(vec![(DnTypeSpec::Org, DnValueSpec::new(StrKind::Utf8, "rv time issuer"))]);
+		ispec.not_before = b.times[n - 1];
+		ispec.not_after = b.times[n / 2];
+		let mut spec = CertSpec::minimal();
+		spec.not_before = t0;
+		spec.not_after = t1;
+		let case = CertCase { spec, key: ed_key(), pk_source: PkSource::KeyPair, issuer: Some(IssuerCase { spec: ispec, key: ed_key() }) };
+		let built = build_cert(&case)?;
+		let (c, _) = decode_cert(built.cert.der())?;
+		check_one(&c.not_before, &t0, "notBefore (issuer-signed)")?;
+		check_one(&c.not_after, &t1, "notAfter (issuer-signed)")?;
+	}
+
 	// CRL: thisUpdate / nextUpdate need this < next (encoded), so order the pair
 	let (lo, hi) = if t0.unix < t1.unix { (t0, t1) } else { (t1, t0) };
 	let hi = if hi.unix == lo.unix { gen::clamp_time((hi.unix + 1).min(gen::Y9999_END), hi.nanos, hi.offset) } else { hi };
@@ -82,8 +101,14 @@ pub fn check_batch(b: &TimeBatch, info: &mut CaseInfo) -> Result<(), String> {
 			.map(|(i, t)| RevokedSpec {
 				serial: Hex((i as u32 + 1).to_be_bytes().to_vec()),
 				revocation_time: *t,
-				reason: None,
-				invalidity_date: None,
+				// entries carry reasons and invalidity dates (other instants of the batch, earlier or later)
+				reason: match i % 4 {
+					0 => Some(ReasonSpec::KeyCompromise),
+					1 => None,
+					2 => Some(ReasonSpec::CaCompromise),
+					_ => Some(ReasonSpec::CessationOfOperation),
+				},
+				invalidity_date: if i % 3 != 1 { Some(b.times[(i + 1) % b.times.len()]) } else { None },
 			})
 			.collect(),
 		kid: KidSpec::Pre(Hex(vec![9])),
@@ -137,7 +162,17 @@ pub fn check_batch(b: &TimeBatch, info: &mut CaseInfo) -> Result<(), String> {
 			revoked: utc
 				.iter()
 				.enumerate()
-				.map(|(i, t)| RevokedSpec { serial: Hex((i as u32 + 1).to_be_bytes().to_vec()), revocation_time: *t, reason: None, invalidity_date: None })
+				.map(|(i, t)| RevokedSpec {
+					serial: Hex((i as u32 + 1).to_be_bytes().to_vec()),
+					revocation_time: *t,
+					reason: match i % 4 {
+						0 => Some(ReasonSpec::KeyCompromise),
+						1 => None,
+						2 => Some(ReasonSpec::CaCompromise),
+						_ => Some(ReasonSpec::CessationOfOperation),
+					},
+					invalidity_date: if i % 3 != 1 { Some(utc[(i + 1) % utc.len()]) } else { None },
+				})
 				.collect(),
 			kid: KidSpec::Pre(Hex(vec![9])),
 		};
